@@ -242,6 +242,29 @@ type model struct {
 	hasLast   bool
 	lastEvLvl alert.Level // level of the last event handed to the topic
 	hist      []alert.Level
+	// flapping (configuration .flapping(0.25, 0.5).history(4)): the documented rule is a hysteresis on the percentage
+	// of state changes in the history: above high -> flapping, below low -> not flapping, in between unchanged
+	flapping bool
+	ring     [4]alert.Level
+	ridx     int
+}
+
+// flapPercent: the weighted percentage of state changes in the history: the history holds l levels, hence l-1
+// possible state changes between consecutive entries; the oldest change weighs 0.8, the newest 1.2 ("the newest state
+// change is weighted 1.5 times more than the oldest"), equal steps in between; normalised by the number of possible
+// changes (documentation of flapping(): "the number state changes over the total possible number of state changes").
+func (m *model) flapPercent() float64 {
+	l := len(m.ring)
+	changes, weight := 0.0, 1.2/1.5
+	step := (1.2 - weight) / float64(l-1)
+	for j := 0; j < l-1; j++ {
+		older, newer := m.ring[(m.ridx+1+j)%l], m.ring[(m.ridx+2+j)%l] // ridx+1 is the oldest entry
+		if older != newer {
+			changes += weight
+		}
+		weight += step
+	}
+	return changes / float64(l-1)
 }
 
 type expect struct {
@@ -261,6 +284,23 @@ func (m *model) step(l alert.Level, t int64) expect {
 	m.cur = l
 	m.hist = append(m.hist, l)
 	e := expect{level: l, t: t}
+	if c.Flap {
+		if changed && prev == alert.OK {
+			m.firstTrig = t // the ID left OK, whether or not an event goes out
+		}
+		m.ridx = (m.ridx + 1) % len(m.ring)
+		m.ring[m.ridx] = l
+		switch p := m.flapPercent(); {
+		case m.flapping && p < 0.25:
+			m.flapping = false
+		case !m.flapping && p > 0.5:
+			m.flapping = true
+		}
+		// while flapping nothing goes out; a batch alert still reports the recovery
+		if m.flapping && !(c.Batch > 0 && changed && l == alert.OK) {
+			return e
+		}
+	}
 	if c.SCO > 0 && !changed && !expired {
 		return e
 	}
@@ -298,6 +338,9 @@ func (m *model) absState(t int64) string {
 		} else {
 			h = fmt.Sprint(m.hist)
 		}
+	}
+	if m.cfg.Flap {
+		h += fmt.Sprint(m.flapping)
 	}
 	return fmt.Sprintf("%d|%s|%s|%d", m.cur, since, h, m.lastEvLvl)
 }
@@ -571,26 +614,6 @@ func (g *gstate) compare(k int, e expect, cfg Config) {
 		g.fail("multi-event", "step %d: %d events, %d forwarded items for one input", k, len(evs), nf)
 		return
 	}
-	if cfg.Flap {
-		// weaker oracle under flapping: see assumptions
-		quiet := flapQuiet(g.m.hist)
-		if len(evs) == 1 {
-			g.nEmit++
-			ev := evs[0]
-			if ev.Level != e.level || ev.T != e.t {
-				g.fail("flap-event", "step %d: event %v but reference level=%v time=%d (syms %v)", k, ev, e.level, e.t/1e6, g.c.Syms)
-			}
-			if want := e.t - g.leftOK; e.level != alert.OK && ev.Duration != want {
-				g.fail("flap-duration", "step %d: event %v carries duration %v but the ID left OK %v before the event (syms %v)", k, ev, time.Duration(ev.Duration), time.Duration(want), g.c.Syms)
-			}
-			if !e.emit && !(cfg.Batch > 0 && e.level == alert.OK) {
-				g.fail("flap-extra", "step %d: event %v although the non-flapping rule emits nothing (syms %v)", k, ev, g.c.Syms)
-			}
-		} else if e.emit && quiet {
-			g.fail("flap-missing", "step %d: no event although the level was constant over the whole flapping history and the rule emits level=%v (syms %v)", k, e.level, g.c.Syms)
-		}
-		return
-	}
 	if e.emit != (len(evs) == 1) {
 		g.fail("emission", "step %d: handler got %d events, reference emit=%v level=%v (syms %+v)", k, len(evs), e.emit, e.level, g.c.Syms)
 		return
@@ -736,7 +759,7 @@ func TestCheck(t *testing.T) {
 	r.ExportSet("model_reachable_trans")
 	r.Assumption("groups/IDs are independent (C06); single-parent pipeline => one execution per input covers all goroutine schedules")
 	r.Assumption("stateChangesOnly(interval): the boundary 'exactly interval elapsed' is not enumerated (points are 1s or 3s apart, interval 2.5s) because the documentation says 'more than' and the code uses >=")
-	r.Assumption("flapping: the statement does not define which events flapping suppresses; under flapping only (a) event level/time equal the reference, (b) no event where the non-flapping rule emits none (batch recoveries excepted), (c) when the level was constant over the whole history the event must be emitted, (d) a non-OK event's duration equals the time since the ID last left OK, are asserted")
+	r.Assumption("flapping: while an ID is flapping no event goes out (a batch alert still reports the recovery); flapping follows the documented hysteresis (enter above high, leave below low) on the percentage of state changes between consecutive history entries, the oldest change weighted 0.8, the newest 1.2 (alert.go: 'the newest state change is weighted 1.5 times more than oldest'), normalised by the number of possible changes")
 	r.Assumption("inhibitors, message/details templates and restart/restore (C08) are not part of this check")
 
 	if rep.ReplayPath() != "" {
